@@ -47,6 +47,7 @@ func newRun(cfg wh.Config, seed int64) *run {
 	w := wh.New(cfg, rec)
 	ck := wh.NewChecker(cfg)
 	ck.SkipKnown = hx.Known(wh.SigFlushNoopAfterReadFromError)
+	ck.Keys = &keys
 	r := &run{cfg: cfg, seed: seed, rec: rec, ex: wh.NewExec(w, rec), ck: ck}
 	if lo, hi, ok := wh.SizeBounds(cfg); ok {
 		// "any buffer size (default, sized, caller-supplied)": the buffer is the
@@ -67,6 +68,24 @@ func defaultDuring(c wh.Config) int {
 		return c.Default
 	}
 	return wsutil.DefaultWriteBuffer
+}
+
+// keys collects the masking keys of all client-side frames one test function
+// sees; checkKeys evaluates the statistical clause at the end of the function.
+var keys wh.KeyStats
+
+func checkKeys(t *testing.T) {
+	t.Helper()
+	vs, counts := keys.Check(50)
+	keys.Reset()
+	for route, n := range counts {
+		if n >= 50 {
+			hx.Class("keys/checked/" + route)
+		}
+	}
+	for _, v := range vs {
+		hx.Failf(t, map[string]interface{}{"frames_per_route": counts}, "%s", v)
+	}
 }
 
 // known reports (and counts) a case that matches the listed known finding; the
@@ -149,6 +168,7 @@ func (r *run) note() {
 // TestStateMachine: random long call histories (rapid state machine) with the
 // wire validator as invariant after every call.
 func TestStateMachine(t *testing.T) {
+	keys.Reset()
 	hx.Check(t, 10, func(t *rapid.T) {
 		cfg := wh.DrawConfig(t, "cfg", true)
 		r := newRun(cfg, rapid.Int64Range(1, 1<<40).Draw(t, "seed"))
@@ -203,6 +223,10 @@ func TestStateMachine(t *testing.T) {
 		}
 		r.note()
 	})
+	if !t.Failed() {
+		checkKeys(t)
+	}
+	keys.Reset()
 }
 
 // exhaustive configurations: the buffer sizes whose header reservation is at
@@ -238,6 +262,7 @@ func exhaustiveConfigs() []wh.Config {
 // (thorough) over the boundary sizes relative to the buffer, each followed by
 // a final flush.
 func TestExhaustiveSmallDepth(t *testing.T) {
+	keys.Reset()
 	alpha := wh.Alphabet()
 	depth := hx.Pick(3, 4)
 	cfgs := exhaustiveConfigs()
@@ -294,6 +319,7 @@ func TestExhaustiveSmallDepth(t *testing.T) {
 		}
 	}
 	hx.EvalN(int(total))
+	checkKeys(t)
 	hx.Part(fmt.Sprintf("action sequences of depth 1..%d over %d letters x %d configurations (raw 3/127/128 server, 7/131/132 client, flush on/off, extensions, second life after Reset / pool)", depth, len(alpha), len(cfgs)), total, true)
 }
 
@@ -302,6 +328,7 @@ func TestExhaustiveSmallDepth(t *testing.T) {
 // exactly, overflow it by one and grow it — deterministic complement of the
 // random test for the 64 KiB sizes, which are too costly to enumerate deeply.
 func TestThresholdSweep(t *testing.T) {
+	keys.Reset()
 	var raws []int
 	for r := 3; r <= 20; r++ {
 		raws = append(raws, r)
@@ -376,12 +403,14 @@ func TestThresholdSweep(t *testing.T) {
 		}
 	}
 	hx.EvalN(n)
+	checkKeys(t)
 	hx.Part("threshold sweep: raw 3..20, 120..140, 65530..65556 x side x {flush on, flush off, second life after Reset from the other side} x 19 boundary scripts", int64(n), true)
 }
 
 // TestWriteMessage: WriteMessage and its six variants send exactly one final
 // frame with the given opcode and payload, masked iff client side.
 func TestWriteMessage(t *testing.T) {
+	keys.Reset()
 	type variant struct {
 		name   string
 		client bool
@@ -439,6 +468,9 @@ func TestWriteMessage(t *testing.T) {
 				t.Fatalf("%s: %d calls produced %d frames", v.name, i+1, len(fs))
 			}
 			f := fs[i]
+			if f.H.Masked {
+				keys.Add("WriteMessage", f.H.Mask)
+			}
 			if !f.H.Fin || f.H.Op != op || f.H.Rsv != 0 || f.H.Masked != v.client {
 				t.Fatalf("%s(op=%#x, %d bytes): frame header %v; want fin, op %#x, rsv 0, masked=%v", v.name, op, n, f.H, op, v.client)
 			}
@@ -452,6 +484,10 @@ func TestWriteMessage(t *testing.T) {
 			})
 		}
 	})
+	if !t.Failed() {
+		checkKeys(t)
+	}
+	keys.Reset()
 }
 
 // TestKnownFindings holds the dedicated probe of the listed finding.
